@@ -312,3 +312,43 @@ Proof.
   split; [intros p s r; unfold C18_ex_rs; rewrite map_length, seq_length; reflexivity|].
   repeat split; reflexivity.
 Qed.
+
+(* ---- simulators on circuits that keep a basis state (Codec/BasisRun.v): records of a key measured several times ---- *)
+From VF Require Import Codec.BasisRun Codec.BasisRunProofs.
+
+(* the one-shot path (stack per key, swap the first two axes): repetition r of a key holds, instance by instance,
+   what each measurement carrying the key cut out of the r-th sample; one entry per repetition *)
+Theorem C18_one_shot_spec : forall reps k sample ops r, (r < reps)%nat ->
+  nth r (one_shot_records reps k sample ops) [] = map (read (sample r)) (key_measurements k ops).
+Proof. exact one_shot_spec. Qed.
+Print Assumptions C18_one_shot_spec.
+
+Theorem C18_one_shot_length : forall reps k sample ops, length (one_shot_records reps k sample ops) = reps.
+Proof. exact one_shot_length. Qed.
+Print Assumptions C18_one_shot_length.
+
+(* the general path: every repetition holds the rows the walk through the operations logs for the key,
+   one row per measurement carrying the key *)
+Theorem C18_general_records_spec : forall reps k dims ops r, (r < reps)%nat ->
+  nth r (general_records reps k dims ops) [] = rows_of k (run_once dims (zero_state dims) ops).
+Proof. exact general_records_spec. Qed.
+Print Assumptions C18_general_records_spec.
+
+Theorem C18_rows_instances : forall dims k ops st,
+  length (rows_of k (run_once dims st ops)) = length (key_measurements k ops).
+Proof. exact rows_instances. Qed.
+Print Assumptions C18_rows_instances.
+
+(* when all measurements are terminal the two paths give the same records *)
+Theorem C18_terminal_paths_agree : forall reps k dims ops, terminal ops = true ->
+  one_shot_records reps k (fun _ => final_state dims ops) ops = general_records reps k dims ops.
+Proof. exact terminal_paths_agree. Qed.
+Print Assumptions C18_terminal_paths_agree.
+
+(* non-vacuity: registers (q0 q1) and (q2 q3) under key 0 reading 01 and 11, key 1 measured once; 3 repetitions *)
+Example C18_basis_example :
+  let ops := [Shift 1 1; Shift 2 1; Shift 3 1; Meas 0 [(0, false); (1, false)]%nat; Meas 0 [(2, false); (3, false)]%nat; Meas 1 [(1, true)]%nat] in
+  terminal ops = true /\ (1 < 3)%nat /\
+  one_shot_records 3 0 (fun _ => final_state [2; 2; 2; 2] ops) ops = repeat [[0; 1]; [1; 1]] 3 /\
+  general_records 3 1 [2; 2; 2; 2] ops = repeat [[0]] 3.
+Proof. split; [reflexivity|]. split; [apply Nat.ltb_lt; reflexivity|]. split; reflexivity. Qed.
